@@ -76,7 +76,23 @@ deriving Inhabited
 def St.init (toks : List Tok) : St := { toks := toks, scanned := false, skip := 0, n := 0, log := [] }
 
 /-- a handler call (`OPTIONAL_CALL` with the handler installed) -/
-def call (p : Prog) (s : St) (e : Ev) : Int × St := (p s.n e, { s with n := s.n + 1, log := e :: s.log })
+def call (p : Prog) (s : St) (e : Ev) : Int × St := (p s.n e, { s with n := s.n + 1, log := e :: s.log })  -- = (p s.n e, push s e)
+
+/-- the state after a handler call -/
+def push (s : St) (e : Ev) : St := { s with n := s.n + 1, log := e :: s.log }
+
+def setSkip (s : St) : Option Int → St
+  | none => s
+  | some d => { s with skip := d }
+
+/-- a handler call site (`OPTIONAL_CALL` followed by the `switch` on the result).  Every such switch in parser.c has
+    this shape: CONTINUE ↦ `result = CIF_OK`; SKIP_CURRENT ↦ CIF_OK, `skip_depth := cur` where the C assigns it;
+    SKIP_SIBLINGS ↦ CIF_OK, `skip_depth := sib`; anything else (END, an error code) stays the result. -/
+def site (p : Prog) (s : St) (e : Ev) (cur sib : Option Int) : Int × St :=
+  if p s.n e = CONTINUE then (OK, push s e)
+  else if p s.n e = SKIP_CURRENT then (OK, setSkip (push s e) cur)
+  else if p s.n e = SKIP_SIBLINGS then (OK, setSkip (push s e) sib)
+  else (p s.n e, push s e)
 
 /-- a syntax callback (`OPTIONAL_VOIDCALL`) -/
 def note (s : St) (e : Ev) : St := { s with log := e :: s.log }
@@ -176,26 +192,26 @@ def Content.prune (c : Content) : Content := { c with loops := c.loops.filter (f
 
 -- ---- items --------------------------------------------------------------------------------------------------
 
+/-- the handler part of parse_item for a named item: CONTINUE stores (when there is a container), SKIP_CURRENT does
+    not, SKIP_SIBLINGS sets the depth to 2 -/
+def scalarItemStep (p : Prog) (cont : Bool) (nm : Str) (v : V) (s : St) : Int × St × Option (Str × V) :=
+  ((site p s (.item nm v) none (some 2)).1, (site p s (.item nm v) none (some 2)).2,
+    if cont ∧ p s.n (.item nm v) = CONTINUE then some (nm, v) else none)
+
 /-- parse_item.  `cont` = `container != NULL`; `name = none` = the NULL name of a skipped / rejected item.
     Returns the result, the state and the (name, value) stored by cif_container_set_value, if any. -/
 def parseItem (p : Prog) (fuel : Nat) (cont : Bool) (name : Option Str) (s : St) : Int × St × Option (Str × V) :=
-  let (ty, s) := nextToken s
-  let s := inc s
-  let (r, s, stored) :=
-    if !isValueStart ty then (MALFORMED, s, none)        -- CIF_MISSING_VALUE
-    else
-      let (r, v, s) := parseValue fuel s
-      if r = OK then
-        match name with
-        | none => (r, s, none)
-        | some nm =>
-          let (h, s) := call p s (.item nm v)
-          if h = CONTINUE then (OK, s, if cont then some (nm, v) else none)
-          else if h = SKIP_CURRENT then (OK, s, none)
-          else if h = SKIP_SIBLINGS then (OK, { s with skip := 2 }, none)
-          else (h, s, none)
-      else (r, s, none)
-  (r, dec s, stored)
+  let s1 := inc (nextToken s).2
+  if !isValueStart (nextToken s).1 then (MALFORMED, dec s1, none)        -- CIF_MISSING_VALUE
+  else
+    let pv := parseValue fuel s1
+    if pv.1 = OK then
+      match name with
+      | none => (OK, dec pv.2.2, none)
+      | some nm =>
+        let it := scalarItemStep p cont nm pv.2.1 pv.2.2
+        (it.1, dec it.2.1, it.2.2)
+    else (pv.1, dec pv.2.2, none)
 
 -- ---- loops --------------------------------------------------------------------------------------------------
 
@@ -203,12 +219,11 @@ def parseItem (p : Prog) (fuel : Nat) (cont : Bool) (name : Option Str) (s : St)
 def headerLoop : Nat → St → List Str → Int × List Str × St
   | 0, s, acc => (NOFUEL, acc, s)
   | fuel + 1, s, acc =>
-    let (ty, s) := nextToken s
-    if ty = .name then
-      let nm := (cur s).text
-      let s := if s.skip ≤ 0 then note s (.dataname nm) else s
-      headerLoop fuel (consume s) (acc ++ [nm])
-    else (OK, acc, s)
+    if (nextToken s).1 = .name then
+      let nm := (cur (nextToken s).2).text
+      let s1 := if (nextToken s).2.skip ≤ 0 then note (nextToken s).2 (.dataname nm) else (nextToken s).2
+      headerLoop fuel (consume s1) (acc ++ [nm])
+    else (OK, acc, (nextToken s).2)
 
 /-- state of the `while` of parse_loop_packets -/
 structure PkSt where
@@ -221,32 +236,19 @@ deriving Inhabited
 /-- first value of a new packet: the packet_start handler, unless the packet is being skipped -/
 def pktStartStep (p : Prog) (s : St) : Int × St :=
   if s.skip > 0 then (OK, { s with skip := s.skip + 1 })
-  else
-    let (h, s) := call p s .pktStart
-    if h = SKIP_CURRENT then (OK, { s with skip := 1 })
-    else if h = SKIP_SIBLINGS then (OK, { s with skip := 2 })
-    else if h = CONTINUE then (OK, s)
-    else (h, s)                                          -- CIF_TRAVERSE_END or an error code: stop parsing
+  else site p s .pktStart (some 1) (some 2)
 
 /-- after parse_value (result `r`) inside a loop: the item handler, unless the item is being skipped -/
 def itemStep (p : Prog) (nm : Str) (r : Int) (v : V) (s : St) : Int × St :=
-  if r = OK ∧ s.skip ≤ 0 then
-    let (h, s) := call p s (.item nm v)
-    if h = SKIP_CURRENT then (OK, s)
-    else if h = SKIP_SIBLINGS then (OK, { s with skip := 1 })
-    else (h, s)
+  if r = OK ∧ s.skip ≤ 0 then site p s (.item nm v) none (some 1)
   else (r, s)
 
 /-- last value of a packet: the packet_end handler, unless the packet is being skipped; the Bool says whether the packet
     is recorded (cif_loop_add_packet, when there is a loop) -/
 def pktEndStep (p : Prog) (items : List (Str × V)) (s : St) : Int × St × Bool :=
   if s.skip > 0 then (OK, { s with skip := s.skip - 1 }, false)
-  else
-    let (h, s) := call p s (.pktEnd items)
-    if h = CONTINUE then (OK, s, true)
-    else if h = SKIP_CURRENT then (OK, s, false)
-    else if h = SKIP_SIBLINGS then (OK, { s with skip := 1 }, false)
-    else (h, s, false)
+  else ((site p s (.pktEnd items) none (some 1)).1, (site p s (.pktEnd items) none (some 1)).2,
+        decide (p s.n (.pktEnd items) = CONTINUE))
 
 /-- the `while` of parse_loop_packets.  `loopH` = `loop != NULL`; `names` = the header's names (column_count of them). -/
 def packetsLoop (p : Prog) (loopH : Bool) (names : List Str) : Nat → St → PkSt → Int × St × PkSt
@@ -272,15 +274,14 @@ def packetsLoop (p : Prog) (loopH : Bool) (names : List Str) : Nat → St → Pk
     else if !k.havePk then (MALFORMED, (nextToken s).2, k)          -- CIF_EMPTY_LOOP
     else (OK, (nextToken s).2, k)
 
-/-- the loop_start handler, unless the loop is being skipped.  Returns (handler result, state, loop created?, parse the
-    body?) -/
+/-- the loop_start handler, unless the loop is being skipped.  Returns (result, state, loop created?, parse the body?):
+    the loop is created on CONTINUE when there is a container; the body is parsed unless the handler answered END or an
+    error code (`goto loop_body_end`) -/
 def loopStartStep (p : Prog) (cont : Bool) (names : List Str) (s : St) : Int × St × Bool × Bool :=
   if s.skip ≤ 0 then
-    let (h, s) := call p s (.loopStart names)
-    if h = CONTINUE then (h, s, cont, true)
-    else if h = SKIP_CURRENT then (h, { s with skip := 1 }, false, true)
-    else if h = SKIP_SIBLINGS then (h, { s with skip := 2 }, false, true)
-    else (h, s, false, false)                           -- CIF_TRAVERSE_END or an error code: goto loop_body_end
+    ((site p s (.loopStart names) (some 1) (some 2)).1, (site p s (.loopStart names) (some 1) (some 2)).2,
+      cont && decide (p s.n (.loopStart names) = CONTINUE),
+      decide ((site p s (.loopStart names) (some 1) (some 2)).1 = OK))
   else (OK, s, false, true)
 
 /-- the loop_start step before fix 43d0bb7: only END left the switch through `goto loop_body_end`; any other answer
@@ -288,22 +289,15 @@ def loopStartStep (p : Prog) (cont : Bool) (names : List Str) (s : St) : Int × 
     handler's (finding F33, fixed) -/
 def loopStartStepPinned (p : Prog) (cont : Bool) (names : List Str) (s : St) : Int × St × Bool × Bool :=
   if s.skip ≤ 0 then
-    let (h, s) := call p s (.loopStart names)
-    if h = CONTINUE then (h, s, cont, true)
-    else if h = SKIP_CURRENT then (h, { s with skip := 1 }, false, true)
-    else if h = SKIP_SIBLINGS then (h, { s with skip := 2 }, false, true)
-    else if h = END then (h, s, false, false)
-    else (h, s, false, true)
+    ((site p s (.loopStart names) (some 1) (some 2)).1, (site p s (.loopStart names) (some 1) (some 2)).2,
+      cont && decide (p s.n (.loopStart names) = CONTINUE),
+      decide (p s.n (.loopStart names) ≠ END))
   else (OK, s, false, true)
 
 /-- the code after label `loop_end` of parse_loop -/
 def loopEndStep (p : Prog) (handle : Option (List Str)) (r : Int) (s : St) : Int × St :=
   if s.skip > 0 then (r, { s with skip := s.skip - 1 })
-  else if r = OK then
-    let (h, s) := call p s (.loopEnd handle)
-    if h = SKIP_CURRENT then (OK, s)
-    else if h = SKIP_SIBLINGS then (OK, { s with skip := 1 })
-    else (h, s)
+  else if r = OK then site p s (.loopEnd handle) none (some 1)
   else (r, s)
 
 /-- parse_loop (entered after the `loop_` keyword was consumed).  Returns the loop created in the container, with the
@@ -330,26 +324,19 @@ def parseLoop (p : Prog) (fuel : Nat) (cont : Bool) (s : St) : Int × St × Opti
 
 /-- the tail of parse_container after label `container_end` -/
 def containerEnd (p : Prog) (cont isBlock : Bool) (code : Str) (r : Int) (s : St) (c : Content) : Int × St × Content :=
-  let s := dec s
-  if r = OK ∧ s.skip ≤ 0 then
-    let c := if cont then c.prune else c
-    let h := if cont then some code else none
-    let (r, s) := call p s (if isBlock then .blockEnd h else .frameEnd h)
-    if r = SKIP_SIBLINGS then (OK, { s with skip := 1 }, c)
-    else if r = CONTINUE ∨ r = SKIP_CURRENT then (OK, s, c)
-    else (r, s, c)
-  else (r, s, c)
+  if r = OK ∧ (dec s).skip ≤ 0 then
+    ((site p (dec s) (if isBlock then .blockEnd (if cont then some code else none) else .frameEnd (if cont then some code else none))
+        none (some 1)).1,
+     (site p (dec s) (if isBlock then .blockEnd (if cont then some code else none) else .frameEnd (if cont then some code else none))
+        none (some 1)).2,
+     if cont then c.prune else c)
+  else (r, dec s, c)
 
 /-- the head of parse_container: the block/frame start handler, unless the container is being skipped -/
 def contStartStep (p : Prog) (cont isBlock : Bool) (code : Str) (s : St) : Int × St :=
   if s.skip > 0 then (OK, inc s)
-  else
-    let h := if cont then some code else none
-    let (r, s) := call p s (if isBlock then .blockStart h else .frameStart h)
-    if r = CONTINUE then (OK, s)
-    else if r = SKIP_CURRENT then (OK, { s with skip := 1 })
-    else if r = SKIP_SIBLINGS then (OK, { s with skip := 2 })
-    else (r, s)
+  else site p s (if isBlock then .blockStart (if cont then some code else none) else .frameStart (if cont then some code else none))
+        (some 1) (some 2)
 
 mutual
   /-- parse_container.  `cont` = `container != NULL`; `code` = the code of the (possibly not created) container. -/
@@ -364,39 +351,37 @@ mutual
   /-- the `while` of parse_container; returns the `result` with which `container_end` is reached -/
   def elemsLoop (p : Prog) (maxFrameDepth : Int) : Nat → Bool → Bool → St → Content → Int × St × Content
     | 0, _, _, s, c => (NOFUEL, s, c)
-    | fuel + 1, cont, isBlock, s, c =>
-      let (ty, s) := nextToken s
-      match ty with
+    | fuel + 1, cont, isBlock, s0, c =>
+      let s := (nextToken s0).2
+      match (nextToken s0).1 with
       | .blockHead => if isBlock then (OK, s, c) else (MALFORMED, s, c)       -- CIF_NO_FRAME_TERM
       | .frameHead =>
         let code := (cur s).text
         if !cont ∨ s.skip > 0 then
           -- frame = NULL
-          let (r, s, _) := parseContainer p maxFrameDepth fuel false false code (consume s)
-          if r = OK then elemsLoop p maxFrameDepth fuel cont isBlock s c else (r, s, c)
+          let f := parseContainer p maxFrameDepth fuel false false code (consume s)
+          if f.1 = OK then elemsLoop p maxFrameDepth fuel cont isBlock f.2.1 c else (f.1, f.2.1, c)
         else if maxFrameDepth = 0 then (MALFORMED, s, c)                      -- CIF_FRAME_NOT_ALLOWED
         else if maxFrameDepth = 1 ∧ !isBlock then (MALFORMED, s, c)           -- CIF_NO_FRAME_TERM
         else
-          let (r, s, fc) := parseContainer p maxFrameDepth fuel true false code (consume s)
-          let c := c.addFrame (.mk code fc.frames fc.loops)
-          if r = OK then elemsLoop p maxFrameDepth fuel cont isBlock s c else (r, s, c)
+          let f := parseContainer p maxFrameDepth fuel true false code (consume s)
+          if f.1 = OK then elemsLoop p maxFrameDepth fuel cont isBlock f.2.1 (c.addFrame (.mk code f.2.2.frames f.2.2.loops))
+          else (f.1, f.2.1, c.addFrame (.mk code f.2.2.frames f.2.2.loops))
       | .frameTerm => if isBlock then (MALFORMED, consume s, c) else (OK, consume s, c)   -- CIF_UNEXPECTED_TERM
       | .loopKw =>
-        let s := if s.skip ≤ 0 then note s (.keyword (cur s).text) else s
-        let (r, s, l) := parseLoop p fuel cont (consume s)
-        let c := match l with | some l => c.addLoop l | none => c
-        if r = OK then elemsLoop p maxFrameDepth fuel cont isBlock s c else (r, s, c)
+        let s1 := if s.skip ≤ 0 then note s (.keyword (cur s).text) else s
+        let l := parseLoop p fuel cont (consume s1)
+        let c1 := match l.2.2 with | some lp => c.addLoop lp | none => c
+        if l.1 = OK then elemsLoop p maxFrameDepth fuel cont isBlock l.2.1 c1 else (l.1, l.2.1, c1)
       | .name =>
         if s.skip > 0 then
-          let (r, s, _) := parseItem p fuel cont none (consume s)
-          if r = OK then elemsLoop p maxFrameDepth fuel cont isBlock s c else (r, s, c)
+          let it := parseItem p fuel cont none (consume s)
+          if it.1 = OK then elemsLoop p maxFrameDepth fuel cont isBlock it.2.1 c else (it.1, it.2.1, c)
         else
-          let nm := (cur s).text
-          let s := note s (.dataname nm)
           -- (duplicate check: well-formed documents never repeat a name)
-          let (r, s, st) := parseItem p fuel cont (some nm) (consume s)
-          let c := match st with | some (n, v) => c.setScalar n v | none => c
-          if r = OK then elemsLoop p maxFrameDepth fuel cont isBlock s c else (r, s, c)
+          let it := parseItem p fuel cont (some (cur s).text) (consume (note s (.dataname (cur s).text)))
+          let c1 := match it.2.2 with | some (n, v) => c.setScalar n v | none => c
+          if it.1 = OK then elemsLoop p maxFrameDepth fuel cont isBlock it.2.1 c1 else (it.1, it.2.1, c1)
       | .end_ => if isBlock then (OK, s, c) else (MALFORMED, s, c)             -- CIF_EOF_IN_FRAME
       | _ => (MALFORMED, s, c)
 end
@@ -407,38 +392,40 @@ end
     Returns the `result` with which label `cif_end` is reached. -/
 def blocksLoop (p : Prog) (maxFrameDepth : Int) (cif : Bool) : Nat → St → List Container → Int × St × List Container
   | 0, s, acc => (NOFUEL, s, acc)
-  | fuel + 1, s, acc =>
-    let (ty, s) := nextToken s
-    match ty with
+  | fuel + 1, s0, acc =>
+    let s := (nextToken s0).2
+    match (nextToken s0).1 with
     | .blockHead =>
       let code := (cur s).text
       let block := cif && decide (s.skip ≤ 0)
-      let (r, s, c) := parseContainer p maxFrameDepth fuel block true code (consume s)
-      let acc := if block then acc ++ [.mk code c.frames c.loops] else acc
-      if r = OK then blocksLoop p maxFrameDepth cif fuel s acc else (r, s, acc)
+      let b := parseContainer p maxFrameDepth fuel block true code (consume s)
+      let acc1 := if block then acc ++ [.mk code b.2.2.frames b.2.2.loops] else acc
+      if b.1 = OK then blocksLoop p maxFrameDepth cif fuel b.2.1 acc1 else (b.1, b.2.1, acc1)
     | .end_ => (OK, s, acc)
     | _ => (MALFORMED, s, acc)                                                   -- CIF_NO_BLOCK_HEADER
 
+/-- the code after label `cif_end` of parse_cif -/
+def cifEndStep (p : Prog) (cif : Bool) (r : Int) (s : St) : Int × St :=
+  if r = OK then
+    ((if p (dec s).n (.cifEnd cif) > OK then p (dec s).n (.cifEnd cif) else OK), push (dec s) (.cifEnd cif))
+  else ((if r > OK then r else OK), dec s)
+
 /-- parse_cif -/
 def parseCif (p : Prog) (maxFrameDepth : Int) (cif : Bool) (fuel : Nat) (s : St) : Int × St × List Container :=
-  let (r, s) := call p s (.cifStart cif)
-  if r = END then (OK, s, []) else
-  let (r, s) :=
-    if r = SKIP_CURRENT ∨ r = SKIP_SIBLINGS then (OK, { s with skip := 1 })
-    else if r = CONTINUE then (OK, s)
-    else (r, s)
-  let (r, s, blocks) := if r = OK then blocksLoop p maxFrameDepth cif fuel s [] else (r, s, [])
-  -- cif_end:
-  let s := dec s
-  let (r, s) := if r = OK then call p s (.cifEnd cif) else (r, s)
-  (if r > OK then r else OK, s, blocks)
+  if p s.n (.cifStart cif) = END then (OK, push s (.cifStart cif), []) else
+  let st := site p s (.cifStart cif) (some 1) (some 1)
+  if st.1 = OK then
+    let b := blocksLoop p maxFrameDepth cif fuel st.2 []
+    ((cifEndStep p cif b.1 b.2.1).1, (cifEndStep p cif b.1 b.2.1).2, b.2.2)
+  else ((cifEndStep p cif st.1 st.2).1, (cifEndStep p cif st.1 st.2).2, [])
 
 /-- enough fuel for any token list: every loop iteration and every nested production consumes a token or ends -/
 def fuelFor (toks : List Tok) : Nat := 2 * toks.length + 8
 
 /-- cif_parse on the token sequence of a document: all callbacks in order, the return value, the stored CIF -/
 def parseCB (p : Prog) (storing : Bool) (toks : List Tok) : List Ev × Int × Cif :=
-  let (r, s, blocks) := parseCif p 1 storing (fuelFor toks) (St.init toks)
-  (s.log.reverse, r, blocks)
+  ((parseCif p 1 storing (fuelFor toks) (St.init toks)).2.1.log.reverse,
+   (parseCif p 1 storing (fuelFor toks) (St.init toks)).1,
+   (parseCif p 1 storing (fuelFor toks) (St.init toks)).2.2)
 
 end CifModel.ParseCB
